@@ -142,7 +142,11 @@ func c18Minimise(c *Ctx, table []string, host, clause string) []string {
 
 // c18Sequence: all hosts on one table instance, forwards then backwards; every answer must be
 // acceptable and equal to the first answer given for that host.
-func c18Sequence(table []string) (cl string, detail string) {
+func c18Sequence(table []string) (cl string, detail string) { return c18SequenceVol(table, 0) }
+
+// c18SequenceVol: with vol > 0, that many further distinct hosts are looked up between the forward and
+// the backward pass (a long-lived process sees many destinations), and the first 64 of them again at the end.
+func c18SequenceVol(table []string, vol int) (cl string, detail string) {
 	if cr := guard(func() {
 		pcr := NewPreConfigRoute()
 		for i, p := range table {
@@ -150,8 +154,14 @@ func c18Sequence(table []string) (cl string, detail string) {
 		}
 		first := map[string]string{}
 		order := append([]string(nil), c18Hosts...)
+		for i := 0; i < vol; i++ {
+			order = append(order, []string{fmt.Sprintf("n%d.example.com", i), fmt.Sprintf("n%d.org", i), fmt.Sprintf("n%d", i), fmt.Sprintf("a.n%d.example.com.example.com", i), fmt.Sprintf("x.n%dg", i)}[i%5])
+		}
 		for i := len(c18Hosts) - 1; i >= 0; i-- {
 			order = append(order, c18Hosts[i])
+		}
+		for i := 0; i < vol && i < 64; i++ {
+			order = append(order, order[len(c18Hosts)+i])
 		}
 		for _, h := range order {
 			_, nh, port, err := pcr.FindRoute(h)
@@ -264,6 +274,19 @@ func c18Run(c *Ctx) {
 		if cl != "" {
 			c.Violate(cl+"|"+strings.Join(c18MinimiseSeq(t), ","), cl, detail, c18Case{t, "", "sequence"})
 		}
+		if len(t) <= 2 {
+			// volume: many distinct destinations on one table instance
+			vol := 700
+			if c.Thorough() {
+				vol = 6000
+			}
+			cl, detail := c18SequenceVol(t, vol)
+			c.Res.Evaluations++
+			c.Res.Executions += int64(2*len(c18Hosts) + vol + 64)
+			if cl != "" {
+				c.Violate(cl+"|volume|"+strings.Join(t, ","), cl, detail, c18Case{t, fmt.Sprint(vol), "sequence-volume"})
+			}
+		}
 	}
 	// next-hop port rule, crossed with the protocol spelling
 	if c.Worker == 0 {
@@ -357,7 +380,7 @@ func c18EndToEnd(c *Ctx) {
 
 func init() {
 	addCheck(&Check{ID: "C18", Level: "exploration",
-		Rule:   "all route tables of <=4 (thorough <=5) entries over a 13-pattern universe (incl. equal-length overlapping wildcards) x 16 hosts (incl. hosts in which a pattern's tail occurs twice), each lookup executed under every map iteration order (all permutations, explorer choice); non-trivial = at least one entry matches; plus, per table, all hosts looked up forwards and backwards on ONE table instance (the answer must not depend on earlier lookups), the port rule table and end-to-end lookups by To host",
+		Rule:   "all route tables of <=4 (thorough <=5) entries over a 13-pattern universe (incl. equal-length overlapping wildcards) x 16 hosts (incl. hosts in which a pattern's tail occurs twice), each lookup executed under every map iteration order (all permutations, explorer choice); non-trivial = at least one entry matches; plus, per table, all hosts looked up forwards and backwards on ONE table instance (the answer must not depend on earlier lookups; for tables of <=2 entries also with 700 - thorough 6000 - further distinct hosts looked up in between), the port rule table and end-to-end lookups by To host",
 		Assume: []string{"Go's regexp package is trusted for nothing: the reference matcher is an independent recursive wildcard matcher"},
 		Run:    c18Run,
 		Replay: func(c *Ctx, raw json.RawMessage) string {
@@ -365,6 +388,12 @@ func init() {
 			json.Unmarshal(raw, &cs)
 			if cs.Mode == "sequence" {
 				cl, _ := c18Sequence(cs.Table)
+				return cl
+			}
+			if cs.Mode == "sequence-volume" {
+				vol := 700
+				fmt.Sscanf(cs.Host, "%d", &vol)
+				cl, _ := c18SequenceVol(cs.Table, vol)
 				return cl
 			}
 			if cs.Mode != "direct" {
